@@ -10,19 +10,20 @@ import (
 // Effects is a flow-insensitive mod/ref summary of one function body.
 // Fields are identified by their *types.Var (field-sensitive, object-insensitive).
 type Effects struct {
-	FieldW    map[*types.Var]token.Pos // field assigned (x.f = .., x.f++, &x.f handed to a call, range key/value)
-	ElemW     map[*types.Var]token.Pos // contents reachable through the field modified (x.f[i] = .., copy(x.f,..), delete(x.f,k), ..)
-	GlobW     map[*types.Var]token.Pos // package-level variable assigned or its contents modified
-	LocalW    map[*types.Var]token.Pos // local variables / parameters assigned (incl. captured ones)
-	ParamEW   map[*types.Var]token.Pos // contents reachable through a parameter/local modified
-	FieldR    map[*types.Var]token.Pos
-	GlobR     map[*types.Var]token.Pos
-	Calls     map[*types.Func]token.Pos // statically resolved callees (origin objects), package-internal and external
-	Dyn       []*ast.CallExpr           // dynamic calls (function values, interface methods)
-	Lits      map[*FuncInfo]bool        // function literals defined in the body (may be called later)
-	ChanOps   []ChanOp
-	Gos       []*ast.GoStmt
-	HeapCalls []*ast.CallExpr // container/heap.X(h, ..) calls
+	FieldW     map[*types.Var]token.Pos // field assigned (x.f = .., x.f++, &x.f handed to a call, range key/value)
+	ElemW      map[*types.Var]token.Pos // contents reachable through the field modified (x.f[i] = .., copy(x.f,..), delete(x.f,k), ..)
+	GlobW      map[*types.Var]token.Pos // package-level variable assigned or its contents modified
+	LocalW     map[*types.Var]token.Pos // local variables / parameters assigned (incl. captured ones)
+	ParamEW    map[*types.Var]token.Pos // contents reachable through a parameter/local modified
+	FieldR     map[*types.Var]token.Pos
+	GlobR      map[*types.Var]token.Pos
+	Calls      map[*types.Func]token.Pos // statically resolved callees (origin objects), package-internal and external
+	Dyn        []*ast.CallExpr           // dynamic calls (function values, interface methods)
+	Lits       map[*FuncInfo]bool        // function literals defined in the body (may be called later)
+	ChanOps    []ChanOp
+	Gos        []*ast.GoStmt
+	HeapCalls  []*ast.CallExpr // container/heap.X(h, ..) calls
+	ParamCalls []*ast.CallExpr // calls of function-typed parameters
 }
 
 type ChanOp struct {
@@ -377,6 +378,14 @@ func (p *Prog) nodeEffects(root ast.Node, self ast.Node) *Effects {
 			}
 			f := p.Callee(x)
 			if f == nil {
+				// calling a function-typed parameter (iterator yield, callback handed in by
+				// the caller): its effects are attributed to whoever supplied the function
+				if id, ok := ast.Unparen(x.Fun).(*ast.Ident); ok {
+					if v, ok := p.Info.Uses[id].(*types.Var); ok && p.isParam(v) {
+						ef.ParamCalls = append(ef.ParamCalls, x)
+						return true
+					}
+				}
 				ef.Dyn = append(ef.Dyn, x)
 				// arguments may be written through by the unknown callee
 				for _, a := range x.Args {
@@ -928,4 +937,35 @@ func (p *Prog) localAliasSources(v *types.Var) []ast.Expr {
 		out = append(out, e)
 	}
 	return out
+}
+
+// isParam reports whether v is a parameter of some function declaration or literal.
+func (p *Prog) isParam(v *types.Var) bool {
+	m, ok := p.memo["params"].(map[*types.Var]bool)
+	if !ok {
+		m = map[*types.Var]bool{}
+		for _, f := range p.Files {
+			ast.Inspect(f, func(n ast.Node) bool {
+				var ft *ast.FuncType
+				switch x := n.(type) {
+				case *ast.FuncDecl:
+					ft = x.Type
+				case *ast.FuncLit:
+					ft = x.Type
+				}
+				if ft != nil && ft.Params != nil {
+					for _, fl := range ft.Params.List {
+						for _, nm := range fl.Names {
+							if pv, ok := p.Info.Defs[nm].(*types.Var); ok {
+								m[pv] = true
+							}
+						}
+					}
+				}
+				return true
+			})
+		}
+		p.memo["params"] = m
+	}
+	return m[v]
 }
